@@ -328,7 +328,7 @@ def oracle(c, obs):
     md_ax, md_ot = ('omd', 'smd') if axis == 'observation' else ('smd', 'omd')
     sc = T.spec_content(spec)
     for key, idk, kept in ((md_ax, ax, r[ax]), (md_ot, ot, r[ot])):
-        want_md = None if sc[key] is None else [sc[key][sc[idk].index(x)] for x in kept]
+        want_md = None if sc[key] is None or not kept else [sc[key][sc[idk].index(x)] for x in kept]
         if canon(r[key]) != canon(want_md):
             fails.append('metadata on %s did not travel with its ids' % idk)
     if r['type'] != sc['type']:
@@ -444,7 +444,8 @@ def gen_case(rng, kind=None, spec=None, axis=None, n=None):
         if kind == 'by_id':
             n = rng.randint(1, N + 2)
         else:
-            pos = [int(x) for x in totals if x > 0]
+            # depths stay small: rng.choice(total, n) materialises O(n) (or O(total)) integers
+            pos = [int(x) for x in totals if 0 < x <= 200]
             if pos and rng.random() < 0.4:
                 n = rng.choice(pos)                        # a total equal to n
             elif pos:
